@@ -66,7 +66,7 @@ func sliceRoots(v ssa.Value, seen map[ssa.Value]bool, out *[]ssa.Value) {
 
 func runC17(c *Ctx) {
 	P := c.P
-	c.Explanation = "Decides structural clauses: (R-CLIP) every subslice of the input handed out by Partition, Chunks and Batches is a three-index slice whose capacity bound equals its length bound, so appending to a result cannot overwrite the caller's other elements (no test looks at cap); (R-DIV-NONZERO) no integer division or remainder in package slice has a divisor that may be zero on some path (facts from dominating branches, per-edge phi reasoning and predicate summaries of the range-check helpers); (R-INDEX-GUARD) At and PtrAt index only under a successful strict range check; (R-SWAP-ONLY) Partition writes its input only by exchanging two elements, so the slice stays a permutation of itself. A subslice bound derived from cap(input) violates the clip rule. Does NOT decide which elements end up where (Partition's order, Rotate's permutation, chunk/batch lengths, Head/Tail/Stripe contents)."
+	c.Explanation = "Decides structural clauses: (R-CLIP) every subslice of the input handed out by Partition, Chunks and Batches is a three-index slice whose capacity bound equals its length bound, so appending to a result cannot overwrite the caller's other elements (no test looks at cap); (R-DIV-NONZERO) no integer division or remainder in package slice has a divisor that may be zero on some path (facts from dominating branches, per-edge phi reasoning and predicate summaries of the range-check helpers); (R-INDEX-GUARD) At and PtrAt index only under a successful strict range check; (R-SWAP-ONLY) Partition writes its input only by exchanging two elements, so the slice stays a permutation of itself. A subslice bound derived from cap(input) violates the clip rule. (R-ALLOC-BOUNDED) an allocation sized by a bare count parameter is reached only with the count bounded by a length (at the site or at every call site of an unexported helper). Does NOT decide which elements end up where (Partition's order, Rotate's permutation, chunk/batch lengths, Head/Tail/Stripe contents)."
 	c.rule("R-CLIP", 3, "every slice expression over the input in Partition/Chunks/Batches has Max present and equal to High")
 	c.rule("R-DIV-NONZERO", 2, "every integer / and % in package slice has a divisor proved non-zero")
 	c.rule("R-INDEX-GUARD", 2, "At/PtrAt: the index into the parameter slice satisfies 0 <= idx < len by a dominating successful range check")
